@@ -55,6 +55,9 @@ type spRender struct {
 	SameVersion bool `json:"same_version"`
 	// PreTag: findings arrive with a stale Detectors value (a detector that reuses its finding objects)
 	PreTag bool `json:"pre_tag"`
+	// ReqExt: every detector declares a required extractor (the first filesystem extractor, which is then always
+	// enabled), as the package-based built-in detectors do; whether a detector runs must not depend on that
+	ReqExt bool `json:"req_ext"`
 }
 
 type spCase struct {
@@ -209,7 +212,12 @@ type spDetector struct {
 func (d *spDetector) Name() string                       { return d.d.Name }
 func (d *spDetector) Version() int                       { return d.ver }
 func (d *spDetector) Requirements() *plugin.Capabilities { return &plugin.Capabilities{} }
-func (d *spDetector) RequiredExtractors() []string       { return nil }
+func (d *spDetector) RequiredExtractors() []string {
+	if d.r != nil && d.r.ReqExt {
+		return []string{"verif/fs1"}
+	}
+	return nil
+}
 
 func spIDs(ps []*extractor.Package) []int {
 	out := []int{}
@@ -333,7 +341,7 @@ func spRun(c *spCase) map[string]any {
 		Capabilities: &plugin.Capabilities{OS: plugin.OSLinux, Network: plugin.NetworkOffline},
 		ScanRoots:    []*scalibrfs.ScanRoot{{FS: mfs}},
 	}
-	if r.EnableAll || len(fs1.pkgs) > 0 {
+	if r.EnableAll || r.ReqExt || len(fs1.pkgs) > 0 {
 		cfg.FilesystemExtractors = append(cfg.FilesystemExtractors, fs1)
 	}
 	if r.EnableAll || len(fs2.pkgs) > 0 {
@@ -416,7 +424,7 @@ func init() {
 				k := idx + seed
 				c.Render = &spRender{Body: k % nBodyRender, ID: (k / nBodyRender) % nIDRender, EnableAll: (k/(nBodyRender*nIDRender))%2 == 0,
 					SameExtra: (k/(nBodyRender*nIDRender*2))%2 == 1, SameVersion: (k/(nBodyRender*nIDRender*4))%2 == 1,
-					PreTag: (k/(nBodyRender*nIDRender*8))%2 == 1}
+					PreTag: (k/(nBodyRender*nIDRender*8))%2 == 1, ReqExt: k%2 == 1}
 			}
 			obs := spRun(&c)
 			return map[string]any{"i": idx, "render": c.Render, "obs": obs}, nil
